@@ -5,110 +5,20 @@ import (
 	"go/ast"
 	"go/token"
 	"go/types"
-	"sort"
 	"strings"
 )
 
-// walkModel is parser.Walk read as a table.
-type walkModel struct {
-	p        *Program
-	at       map[ast.Expr]ast.Node // pushed expression -> the call that pushes it
-	full     map[ast.Expr]bool     // pushed "expression" standing for every element of a slice (helper call)
-	fd       *ast.FuncDecl
-	stackObj types.Object
-	visitObj types.Object
-	rootObj  types.Object
-	loop     *ast.ForStmt
-	sw       *typeSwitchInfo
-	caseOf   map[string]*ast.CaseClause // TypeStr -> clause
-}
-
-func (p *Program) walkModel() *walkModel {
-	pkg := p.Parser
-	info := pkg.TypesInfo
-	fd := p.MustFunc(pkg, "Walk")
-	m := &walkModel{p: p, at: map[ast.Expr]ast.Node{}, full: map[ast.Expr]bool{}, fd: fd, caseOf: map[string]*ast.CaseClause{}}
-	params := fd.Type.Params.List
-	if len(params) != 2 {
-		fatalf("parser.Walk: expected 2 parameters")
-	}
-	m.rootObj = info.Defs[params[0].Names[0]]
-	m.visitObj = info.Defs[params[1].Names[0]]
-	node := p.Named(pkg, "Node")
-	// The worklist: a local []Node variable.
-	ast.Inspect(fd.Body, func(n ast.Node) bool {
-		as, ok := n.(*ast.AssignStmt)
-		if !ok || as.Tok != token.DEFINE || len(as.Lhs) != 1 || m.stackObj != nil {
-			return true
-		}
-		if sl, ok := info.TypeOf(as.Lhs[0]).(*types.Slice); ok && types.Identical(sl.Elem(), node) {
-			m.stackObj = info.Defs[as.Lhs[0].(*ast.Ident)]
-		}
-		return true
-	})
-	if m.stackObj == nil {
-		fatalf("parser.Walk: no []Node worklist variable found")
-	}
-	for _, s := range fd.Body.List {
-		if fs, ok := s.(*ast.ForStmt); ok {
-			m.loop = fs
-		}
-	}
-	if m.loop == nil {
-		fatalf("parser.Walk: no worklist loop found")
-	}
-	sws := findTypeSwitches(info, m.loop.Body, node)
-	if len(sws) != 1 {
-		fatalf("parser.Walk: expected exactly one type switch over a Node, found %d", len(sws))
-	}
-	m.sw = sws[0]
-	for cc, ts := range m.sw.Types {
-		for _, t := range ts {
-			if t != nil {
-				m.caseOf[TypeStr(t)] = cc
-			}
-		}
-	}
-	return m
-}
-
-// pushes returns every append(stack, e...) element expression inside n.
-func (m *walkModel) pushes(info *types.Info, n ast.Node) []ast.Expr {
-	var out []ast.Expr
-	ast.Inspect(n, func(x ast.Node) bool {
-		call, ok := x.(*ast.CallExpr)
-		if !ok || len(call.Args) < 2 || objOf(info, call.Args[0]) != m.stackObj {
-			return true
-		}
-		if IsBuiltinCall(info, call, "append") {
-			for _, a := range call.Args[1:] {
-				// temporaries are looked through: prop := n.Props[i]; append(stack, prop.Value)
-				ra := m.p.resolveDeep(a, 0, m.p.DefExpr)
-				m.at[ra] = call
-				out = append(out, ra)
-			}
-			return true
-		}
-		// stack = pushAll(stack, n.F): a helper that appends every element of its second argument
-		if fn := Callee(info, call); fn != nil && len(call.Args) == 2 && m.p.pushAllHelper(fn) {
-			ix := &ast.IndexExpr{X: call.Args[1], Lbrack: call.Args[1].End(), Index: &ast.Ident{Name: "_all", NamePos: call.Args[1].End()}}
-			if sl, ok := info.TypeOf(call.Args[1]).Underlying().(*types.Slice); ok {
-				info.Types[ix] = types.TypeAndValue{Type: sl.Elem()}
-			}
-			m.at[ix] = call
-			m.full[ix] = true
-			out = append(out, ix)
-		}
-		return true
-	})
-	return out
-}
-
 // pushAllHelper: fn(stack, nodes) appends every element of nodes (in some order) to stack and returns it.
 func (p *Program) pushAllHelper(fn *types.Func) bool {
+	ok, _ := p.pushAllHelperG(fn)
+	return ok
+}
+
+// pushAllHelperG also accepts a helper that skips nil elements (`if nodes[i] != nil { ... }`) and reports that.
+func (p *Program) pushAllHelperG(fn *types.Func) (isHelper, skipsNil bool) {
 	decl, _ := p.DeclOf(fn)
 	if decl == nil || decl.Body == nil || decl.Type.Params.NumFields() != 2 || len(decl.Body.List) != 2 {
-		return false
+		return false, false
 	}
 	info := p.Info
 	var ps []types.Object
@@ -118,11 +28,11 @@ func (p *Program) pushAllHelper(fn *types.Func) bool {
 		}
 	}
 	if len(ps) != 2 {
-		return false
+		return false, false
 	}
 	ret, ok := decl.Body.List[1].(*ast.ReturnStmt)
 	if !ok || len(ret.Results) != 1 || objOf(info, ret.Results[0]) != ps[0] {
-		return false
+		return false, false
 	}
 	// the loop: all indices (or all elements) of the second parameter
 	var body *ast.BlockStmt
@@ -131,13 +41,13 @@ func (p *Program) pushAllHelper(fn *types.Func) bool {
 	case *ast.ForStmt:
 		init, ok := l.Init.(*ast.AssignStmt)
 		if !ok || len(init.Lhs) != 1 {
-			return false
+			return false, false
 		}
 		iv := objOf(info, init.Lhs[0])
 		paramExpr := &ast.Ident{Name: ps[1].Name()}
 		info.Uses[paramExpr] = ps[1]
 		if iv == nil || !isCountedLoopOver(info, l, iv, paramExpr) {
-			return false
+			return false, false
 		}
 		body = l.Body
 		elem = func(e ast.Expr) bool {
@@ -146,7 +56,7 @@ func (p *Program) pushAllHelper(fn *types.Func) bool {
 		}
 	case *ast.RangeStmt:
 		if objOf(info, l.X) != ps[1] {
-			return false
+			return false, false
 		}
 		body = l.Body
 		elem = func(e ast.Expr) bool {
@@ -157,25 +67,43 @@ func (p *Program) pushAllHelper(fn *types.Func) bool {
 			return ok && objOf(info, ix.X) == ps[1] && l.Key != nil && objOf(info, ix.Index) == objOf(info, l.Key)
 		}
 	default:
-		return false
+		return false, false
 	}
 	if len(body.List) != 1 {
-		return false
+		return false, false
 	}
-	as, ok := body.List[0].(*ast.AssignStmt)
+	stmt := body.List[0]
+	// if elem != nil { ... }   /   if c := elem; c != nil { ... }
+	if ifs, isIf := stmt.(*ast.IfStmt); isIf && ifs.Else == nil && len(ifs.Body.List) == 1 {
+		cond, isBin := ast.Unparen(ifs.Cond).(*ast.BinaryExpr)
+		if !isBin || cond.Op != token.NEQ || !isNilIdent(info, cond.Y) {
+			return false, false
+		}
+		tested := cond.X
+		inner := elem
+		if ifs.Init != nil {
+			as, isAs := ifs.Init.(*ast.AssignStmt)
+			if !isAs || len(as.Lhs) != 1 || len(as.Rhs) != 1 || !elem(as.Rhs[0]) || objOf(info, as.Lhs[0]) != objOf(info, tested) || objOf(info, tested) == nil {
+				return false, false
+			}
+			tv := objOf(info, tested)
+			inner = func(e ast.Expr) bool { return objOf(info, e) == tv || elem(e) }
+		} else if !elem(tested) {
+			return false, false
+		}
+		elem = inner
+		stmt = ifs.Body.List[0]
+		skipsNil = true
+	}
+	as, ok := stmt.(*ast.AssignStmt)
 	if !ok || len(as.Lhs) != 1 || len(as.Rhs) != 1 || objOf(info, as.Lhs[0]) != ps[0] {
-		return false
+		return false, false
 	}
 	call, ok := as.Rhs[0].(*ast.CallExpr)
-	return ok && IsBuiltinCall(info, call, "append") && len(call.Args) == 2 && objOf(info, call.Args[0]) == ps[0] && elem(call.Args[1])
-}
-
-// site: the syntax node at which a pushed expression is pushed (the pushing call).
-func (m *walkModel) site(e ast.Expr) ast.Node {
-	if at := m.at[e]; at != nil {
-		return at
+	if ok && IsBuiltinCall(info, call, "append") && len(call.Args) == 2 && objOf(info, call.Args[0]) == ps[0] && elem(call.Args[1]) {
+		return true, skipsNil
 	}
-	return e
+	return false, false
 }
 
 // dynTypes returns the dynamic types a value of static type t can have when it is pushed.
@@ -184,313 +112,6 @@ func (p *Program) dynTypes(t types.Type) []types.Type {
 		return p.Implementers(iface)
 	}
 	return []types.Type{t}
-}
-
-func ruleC11(p *Program, r *Run) {
-	pkg := p.Parser
-	info := pkg.TypesInfo
-	m := p.walkModel()
-	fn := "parser.Walk"
-	r.Saw(fn)
-	nodeIface := p.Iface(pkg, "Node")
-
-	// ---- C11/handled: pushed dynamic types ⊆ handled cases.
-	r.Floor("C11/handled", 26)
-	type origin struct{ what, pos string }
-	need := map[string][]origin{}
-	addNeed := func(t types.Type, what string, pos token.Pos) {
-		for _, d := range p.dynTypes(t) {
-			need[TypeStr(d)] = append(need[TypeStr(d)], origin{what, p.Pos(pos)})
-		}
-	}
-	// Roots: any Statement (Walk over a parse) and any Expr (the compiler's use).
-	for _, rootIface := range []string{"Statement", "Expr"} {
-		for _, d := range p.Implementers(p.Iface(pkg, rootIface)) {
-			need[TypeStr(d)] = append(need[TypeStr(d)], origin{"root argument of type " + rootIface, p.Pos(m.fd.Pos())})
-		}
-	}
-	for _, cc := range m.sw.Clauses {
-		for _, e := range m.pushes(info, cc) {
-			addNeed(info.TypeOf(e), "push of "+exprStr(e), e.Pos())
-		}
-	}
-	var names []string
-	for n := range need {
-		names = append(names, n)
-	}
-	sort.Strings(names)
-	for _, n := range names {
-		o := need[n][0]
-		key := fmt.Sprintf("%s dynamic type %s", fn, n)
-		if _, ok := m.caseOf[n]; ok {
-			r.PassNT("C11/handled", key, o.pos, fmt.Sprintf("has a case; reachable via %s (+%d more)", o.what, len(need[n])-1))
-		} else {
-			r.Fail("C11/handled", key, o.pos, fmt.Sprintf("%s can reach the worklist (%s) but the type switch has no case for it: the default branch panics", n, o.what))
-		}
-	}
-
-	// ---- per-case rules.
-	r.Floor("C11/complete", 30)
-	r.Floor("C11/once", 26)
-	skipDocumented := map[string]string{
-		"CallExpr.Func":       "documented exception: function-name identifiers are not visited",
-		"JoinOperator.Flavor": "documented exception: join-kind identifiers are not visited",
-	}
-	optional := p.optionalNodeFields()
-	var caseNames []string
-	for n := range m.caseOf {
-		caseNames = append(caseNames, n)
-	}
-	sort.Strings(caseNames)
-	visitCalls := 0
-	counted := map[*ast.CaseClause]bool{}
-	for _, cn := range caseNames {
-		cc := m.caseOf[cn]
-		if len(m.sw.Types[cc]) != 1 {
-			// several types in one clause: only possible for nodes without children (the clause cannot reach fields)
-			var T types.Type
-			for _, t := range m.sw.Types[cc] {
-				if t != nil && TypeStr(t) == cn {
-					T = t
-				}
-			}
-			leaf := T != nil
-			if st := StructOf(T); st != nil {
-				for i := 0; i < st.NumFields(); i++ {
-					f := st.Field(i)
-					elem := f.Type()
-					if sl, ok := elem.Underlying().(*types.Slice); ok {
-						elem = sl.Elem()
-					}
-					if types.Implements(elem, nodeIface) && skipDocumented[fieldKey(T, f)] == "" {
-						leaf = false
-					}
-				}
-			}
-			var visits []*ast.CallExpr
-			ast.Inspect(cc, func(x ast.Node) bool {
-				if call, ok := x.(*ast.CallExpr); ok && objOf(info, call.Fun) == m.visitObj {
-					visits = append(visits, call)
-				}
-				return true
-			})
-			if !counted[cc] {
-				visitCalls += len(visits)
-				counted[cc] = true
-			}
-			okLeaf := leaf && len(visits) == 1 && len(visits[0].Args) == 1 && objOf(info, visits[0].Args[0]) == clauseVar(info, cc) && len(m.pushes(info, cc)) == 0
-			r.Check(okLeaf, "C11/once", fn+" case "+cn, p.Pos(cc.Pos()), "shares a clause with other childless node types: visit(n) once, nothing pushed", "case clause lists several types but this one has children (or the clause does not call the visitor exactly once with the node): per-type children cannot be visited from a shared clause")
-			continue
-		}
-		T := m.sw.Types[cc][0]
-		nv := clauseVar(info, cc)
-		st := StructOf(T)
-		if st == nil {
-			continue
-		}
-		// once: exactly one visit call, argument is the clause variable, pushes gated on it.
-		var visits []*ast.CallExpr
-		ast.Inspect(cc, func(x ast.Node) bool {
-			if call, ok := x.(*ast.CallExpr); ok && objOf(info, call.Fun) == m.visitObj {
-				visits = append(visits, call)
-			}
-			return true
-		})
-		visitCalls += len(visits)
-		pushes := m.pushes(info, cc)
-		onceKey := fn + " case " + cn
-		switch {
-		case len(visits) != 1:
-			r.Fail("C11/once", onceKey, p.Pos(cc.Pos()), fmt.Sprintf("visitor called %d times in this case (want exactly once)", len(visits)))
-		case len(visits[0].Args) != 1 || objOf(info, visits[0].Args[0]) != nv:
-			r.Fail("C11/once", onceKey, p.Pos(visits[0].Pos()), "visitor is not called with the node of this case")
-		default:
-			// every push must be inside `if visit(n) { ... }`
-			ok := true
-			var gate *ast.IfStmt
-			if ifs, isIf := p.Parent(visits[0]).(*ast.IfStmt); isIf && ifs.Cond == ast.Expr(visits[0]) && ifs.Init == nil {
-				gate = ifs
-			}
-			// if !visit(n) { continue }: everything after it in the clause is gated
-			var earlyExit *ast.IfStmt
-			if un, isNot := p.Parent(visits[0]).(*ast.UnaryExpr); isNot && un.Op == token.NOT {
-				if ifs, isIf := p.Parent(un).(*ast.IfStmt); isIf && ifs.Cond == ast.Expr(un) && ifs.Init == nil && ifs.Else == nil && len(ifs.Body.List) > 0 {
-					switch last := ifs.Body.List[len(ifs.Body.List)-1].(type) {
-					case *ast.BranchStmt:
-						if last.Tok == token.CONTINUE && last.Label == nil {
-							earlyExit = ifs
-						}
-					case *ast.ReturnStmt:
-						earlyExit = ifs
-					}
-					// only directly in the clause body (not nested in something that is skipped over)
-					if earlyExit != nil {
-						direct := false
-						for _, bs := range cc.Body {
-							if bs == ast.Stmt(earlyExit) {
-								direct = true
-							}
-						}
-						if !direct {
-							earlyExit = nil
-						}
-					}
-				}
-			}
-			for _, e := range pushes {
-				inside := false
-				var site ast.Node = e
-				if at := m.at[e]; at != nil {
-					site = at
-				}
-				if earlyExit != nil && site.Pos() > earlyExit.End() {
-					inside = true
-				}
-				if gate != nil {
-					p.ancestors(site, cc, func(anc, child ast.Node) bool {
-						if anc == ast.Node(gate) && child == ast.Node(gate.Body) {
-							inside = true
-							return false
-						}
-						return true
-					})
-				}
-				if !inside {
-					ok = false
-					r.Fail("C11/once", onceKey+" push "+exprStr(e), p.Pos(e.Pos()), "child pushed without being gated on the visitor's result (skip contract: false must skip the descendants) or before the visitor call")
-				}
-			}
-			if ok {
-				how := "visit(n) once; no children"
-				if len(pushes) > 0 {
-					how = fmt.Sprintf("visit(n) once, %d pushes all inside `if visit(n)`", len(pushes))
-				}
-				r.PassNT("C11/once", onceKey, p.Pos(visits[0].Pos()), how)
-			}
-		}
-
-		// complete + nil per node-bearing field.
-		for i := 0; i < st.NumFields(); i++ {
-			f := st.Field(i)
-			ft := f.Type()
-			elem := ft
-			isSlice := false
-			if sl, ok := ft.Underlying().(*types.Slice); ok {
-				elem = sl.Elem()
-				isSlice = true
-			}
-			if !types.Implements(elem, nodeIface) {
-				continue
-			}
-			fk := fieldKey(T, f)
-			key := fn + " case " + cn + " field " + f.Name()
-			if why, ok := skipDocumented[fk]; ok {
-				r.Pass("C11/complete", key, p.Pos(cc.Pos()), why)
-				continue
-			}
-			// find pushes of this field
-			var fpush []ast.Expr
-			for _, e := range pushes {
-				base := ast.Unparen(e)
-				if isSlice {
-					ix, ok := base.(*ast.IndexExpr)
-					if !ok {
-						continue
-					}
-					base = ix.X
-				}
-				if fieldSel(info, base, nv) == f {
-					fpush = append(fpush, e)
-				}
-			}
-			if len(fpush) == 0 && isSlice {
-				// slice of a node type without its own case: element fields must be pushed instead.
-				if _, has := m.caseOf[TypeStr(elem)]; !has {
-					est := StructOf(elem)
-					allOK := est != nil
-					var missing []string
-					if est != nil {
-						for j := 0; j < est.NumFields(); j++ {
-							ef := est.Field(j)
-							if !types.Implements(ef.Type(), nodeIface) {
-								continue
-							}
-							found := false
-							for _, e := range pushes {
-								sel, ok := ast.Unparen(e).(*ast.SelectorExpr)
-								if !ok || selField(info, sel) != ef {
-									continue
-								}
-								if ix, ok := ast.Unparen(sel.X).(*ast.IndexExpr); ok && fieldSel(info, ix.X, nv) == f {
-									found = true
-									// nil rule for element fields
-									if optional[fieldKey(elem, ef)] != "" {
-										guarded := p.guardedByNonNil(info, m.site(e), cc, sel)
-										r.Check(guarded, "C11/nil", key+"[i]."+ef.Name(), p.Pos(e.Pos()), "optional field pushed under `!= nil`", fmt.Sprintf("optional field %s pushed without a nil guard (%s)", fieldKey(elem, ef), optional[fieldKey(elem, ef)]))
-									}
-								}
-							}
-							if !found {
-								allOK = false
-								missing = append(missing, ef.Name())
-							}
-						}
-					}
-					r.Check(allOK, "C11/complete", key, p.Pos(cc.Pos()), "element type has no case of its own; every node-bearing element field is pushed", fmt.Sprintf("elements of %s are never pushed and their fields %v are not pushed either: those children are never visited", fk, missing))
-					continue
-				}
-			}
-			if len(fpush) == 0 {
-				r.Fail("C11/complete", key, p.Pos(cc.Pos()), fmt.Sprintf("node-bearing field %s is never pushed: its subtree is never visited", fk))
-				continue
-			}
-			if len(fpush) > 1 {
-				r.Fail("C11/complete", key, p.Pos(fpush[1].Pos()), fmt.Sprintf("field %s is pushed %d times: its subtree would be visited more than once", fk, len(fpush)))
-				continue
-			}
-			if isSlice {
-				// pushed inside a loop over all indices of the field (or by a helper that pushes every element)
-				ok := m.full[fpush[0]] || p.inFullIndexLoop(info, fpush[0], cc)
-				r.Check(ok, "C11/complete", key, p.Pos(fpush[0].Pos()), "every element pushed (loop over all indices)", "slice field is not pushed inside a loop over all of its indices")
-			} else {
-				r.Pass("C11/complete", key, p.Pos(fpush[0].Pos()), "pushed")
-			}
-			if why := optional[fk]; why != "" && !isSlice {
-				guarded := p.guardedByNonNil(info, m.site(fpush[0]), cc, fpush[0])
-				r.Check(guarded, "C11/nil", key, p.Pos(fpush[0].Pos()), "optional field pushed under `!= nil`", fmt.Sprintf("optional field %s is pushed without a nil guard (%s): the visitor receives a nil node or the default branch panics", fk, why))
-			}
-		}
-	}
-	r.Floor("C11/nil", 3)
-	// no visit call outside the cases
-	total := 0
-	ast.Inspect(m.fd.Body, func(x ast.Node) bool {
-		if call, ok := x.(*ast.CallExpr); ok && objOf(info, call.Fun) == m.visitObj {
-			total++
-		}
-		return true
-	})
-	r.Check(total == visitCalls, "C11/once", fn+" visitor calls outside cases", p.Pos(m.fd.Pos()), "none", fmt.Sprintf("%d visitor call(s) outside the per-type cases", total-visitCalls))
-
-	// pop discipline: loop condition len(stack) > 0; one pop per iteration; root pushed once.
-	ruleC11Pop(p, r, m)
-
-	// default branch must not be silently accepting
-	if m.sw.Default != nil {
-		panics := false
-		ast.Inspect(m.sw.Default, func(x ast.Node) bool {
-			if call, ok := x.(*ast.CallExpr); ok && IsBuiltinCall(info, call, "panic") {
-				panics = true
-			}
-			return true
-		})
-		if panics {
-			r.Note("Walk default branch panics; dead for non-nil nodes iff C11/handled holds")
-		}
-	}
-
-	// ---- C11/use: the compiler's use.
-	ruleC11Use(p, r)
 }
 
 // inFullIndexLoop: e is `n.F[i]` and sits in `for i := len(n.F)-1; i >= 0; i--` or `for i := range n.F` / `for i := 0; i < len(n.F); i++`.
@@ -575,56 +196,6 @@ func isCountedLoopOver(info *types.Info, l *ast.ForStmt, i types.Object, s ast.E
 		}
 	}
 	return false
-}
-
-func ruleC11Pop(p *Program, r *Run, m *walkModel) {
-	info := p.Parser.TypesInfo
-	fn := "parser.Walk"
-	// loop condition
-	condOK := false
-	if b, ok := m.loop.Cond.(*ast.BinaryExpr); ok && b.Op == token.GTR {
-		if c, ok := b.X.(*ast.CallExpr); ok && IsBuiltinCall(info, c, "len") && objOf(info, c.Args[0]) == m.stackObj {
-			if z, ok := constInt(info, b.Y); ok && z == 0 {
-				condOK = true
-			}
-		}
-	}
-	r.Check(condOK, "C11/once", fn+" worklist loop condition", p.Pos(m.loop.Pos()), "loops while the worklist is non-empty", "worklist loop condition is not `len(stack) > 0`: nodes may be left unvisited or an empty stack popped")
-	// exactly one re-slice stack = stack[:len(stack)-1] at top level of loop body, and the switch tag is the popped element stack[len(stack)-1].
-	pops := 0
-	var popped types.Object
-	for _, s := range m.loop.Body.List {
-		as, ok := s.(*ast.AssignStmt)
-		if !ok || len(as.Lhs) != 1 || len(as.Rhs) != 1 {
-			continue
-		}
-		if objOf(info, as.Lhs[0]) == m.stackObj {
-			if sl, ok := as.Rhs[0].(*ast.SliceExpr); ok && objOf(info, sl.X) == m.stackObj && sl.Low == nil && isLenMinus1(info, p.DefExpr(sl.High), m.stackObj) {
-				pops++
-			}
-			continue
-		}
-		if ix, ok := as.Rhs[0].(*ast.IndexExpr); ok && objOf(info, ix.X) == m.stackObj && isLenMinus1(info, p.DefExpr(ix.Index), m.stackObj) {
-			popped = objOf(info, as.Lhs[0])
-		}
-	}
-	tagOK := popped != nil && objOf(info, m.sw.Tag) == popped
-	r.Check(pops == 1 && tagOK, "C11/once", fn+" pop discipline", p.Pos(m.loop.Pos()), "each iteration pops exactly the last element and dispatches on it", fmt.Sprintf("worklist pop discipline broken (pops per iteration=%d, dispatch on popped element=%v)", pops, tagOK))
-	// other writes to the stack outside cases: only the initial literal containing the root exactly once.
-	rootPush := 0
-	ast.Inspect(m.fd.Body, func(x ast.Node) bool {
-		if cl, ok := x.(*ast.CompositeLit); ok {
-			if sl, ok := info.TypeOf(cl).(*types.Slice); ok && types.Identical(sl.Elem(), p.Named(p.Parser, "Node")) {
-				for _, e := range cl.Elts {
-					if objOf(info, e) == m.rootObj {
-						rootPush++
-					}
-				}
-			}
-		}
-		return true
-	})
-	r.Check(rootPush == 1, "C11/once", fn+" root", p.Pos(m.fd.Pos()), "root pushed exactly once", fmt.Sprintf("root node pushed %d times", rootPush))
 }
 
 func isLenMinus1(info *types.Info, e ast.Expr, obj types.Object) bool {
